@@ -796,7 +796,9 @@ def rule_row_operations(chk):
         R, C = sp
         # `nt*rb + nt - 1` (the last column of row rb, with the width standing for n + nb) splits into row rb + 1, column -1: a negative constant column is the same entry one
         # row up
-        if C.is_const() and C.const_value() < 0 and any(mono == ((WN, 1),) for mono in p_.t):
+        def terms(e_):
+            return terms(e_.left) + terms(e_.right) if isinstance(e_, ast.BinOp) and isinstance(e_.op, (ast.Add, ast.Sub)) else [e_]
+        if C.is_const() and C.const_value() < 0 and any(isinstance(t_, ast.Name) and t_.id == WN for t_ in terms(idx)):
             R, C = R - Poly.const(1), C + n_ + nb_
         if WN in R.atoms() or WN in C.atoms():
             raise Skip('index %s' % U(idx))
